@@ -669,6 +669,12 @@ func handleRename(params internal.HandlerFuncParams) ([]byte, error) {
 		return nil, errors.New("no such key")
 	}
 
+	// Renaming a key onto itself leaves it as it is (writing it and then deleting
+	// the "old" name would remove it).
+	if oldKey == newKey {
+		return []byte("+OK\r\n"), nil
+	}
+
 	// Set the new key with the old value
 	if err := params.SetValues(params.Context, map[string]interface{}{newKey: oldValue}); err != nil {
 		return nil, err
